@@ -53,6 +53,11 @@ example : admissionOK [("src/x.go", "f", "f", "AddTransaction", "none")] = false
 example : admissionOK [("src/x.go", "T.fwd", "fwd", "AddTransaction", "none"),
                        ("src/y.go", "g", "g", "fwd", "none")] = false := by decide
 
+/-- No admission function verifies or inserts inside a goroutine or function literal: the
+    verdict is computed and used for the element at hand, sequentially (a parallelised batch
+    loop — captured loop variable, detached verdicts — changes this list). -/
+theorem admission_is_sequential : admissionGoroutines = [] := rfl
+
 theorem scanned_whole_tree : admissionFilesScanned ≥ 300 := by decide
 
 end Rangers.Props.C07Admit
